@@ -65,7 +65,7 @@ func c04Publication(c *Ctx, m *Module, pfx string) {
 	var resCAS, linkCAS, wr *ssa.Call
 	for _, cs := range callsIn(nc, "(*internal/counter.mappedFile).cas32") {
 		p := newProver()
-		off := p.norm(cs.Common().Args[1])
+		off := p.norm(argsOf(cs)[1])
 		isLimit := false
 		for t := range off.coef {
 			if strings.HasSuffix(t, "hdrLen") && len(off.coef) == 1 {
@@ -104,22 +104,22 @@ func c04Publication(c *Ctx, m *Module, pfx string) {
 		r.Check(pfx+".reserve-write-link", fmt.Sprintf("newCounter/link CAS #%d only after the record was written", nLink), m.Pos(cs.Pos()), okWrittenFirst, "a head CAS must come after a successful writeEntryAt (a reader following the chain must find a complete record)")
 	}
 	// the link installs `start` (the offset written) expecting `head`
-	la := linkCAS.Call.Args
-	r.Check(pfx+".reserve-write-link", "newCounter/link installs the written record's offset", m.Pos(linkCAS.Pos()), la[3] == wr.Call.Args[1] || describe(la[3]) == describe(wr.Call.Args[1]),
-		"cas32(headOff, head, start) with the start passed to writeEntryAt; got "+describe(la[3])+" vs "+describe(wr.Call.Args[1]))
-	r.Check(pfx+".reserve-write-link", "newCounter/record written at the reserved start", m.Pos(wr.Pos()), strings.HasSuffix(describe(refine(wr.Call.Args[1], factsAt(wr))), ").place("+describePlaceArgs(resCAS)+")#0") || samePlace(refine(wr.Call.Args[1], factsAt(wr)), resCAS.Call.Args[3]),
+	la := argsOf(linkCAS)
+	r.Check(pfx+".reserve-write-link", "newCounter/link installs the written record's offset", m.Pos(linkCAS.Pos()), la[3] == argsOf(wr)[1] || describe(la[3]) == describe(argsOf(wr)[1]),
+		"cas32(headOff, head, start) with the start passed to writeEntryAt; got "+describe(la[3])+" vs "+describe(argsOf(wr)[1]))
+	r.Check(pfx+".reserve-write-link", "newCounter/record written at the reserved start", m.Pos(wr.Pos()), strings.HasSuffix(describe(refine(argsOf(wr)[1], factsAt(wr))), ").place("+describePlaceArgs(resCAS)+")#0") || samePlace(refine(argsOf(wr)[1], factsAt(wr)), argsOf(resCAS)[3]),
 		"the offset written is place()'s start whose end was CASed into the limit")
 	// next.Store(head) right before each link attempt, same head
 	var nextStore *ssa.Call
 	for _, cs := range callsIn(nc, "(*sync/atomic.Uint32).Store") {
 		cl := cs.(*ssa.Call)
-		if e, ok := cl.Call.Args[0].(*ssa.Extract); ok && e.Tuple == ssa.Value(wr) && e.Index == 0 {
+		if e, ok := argsOf(cl)[0].(*ssa.Extract); ok && e.Tuple == ssa.Value(wr) && e.Index == 0 {
 			if cl.Block() == linkCAS.Block() && instrIndex(cl) < instrIndex(linkCAS) {
 				nextStore = cl
 			}
 		}
 	}
-	okNext := nextStore != nil && nextStore.Call.Args[1] == la[2]
+	okNext := nextStore != nil && argsOf(nextStore)[1] == la[2]
 	r.Check(pfx+".reserve-write-link", "newCounter/each link attempt first points the record at the expected head", m.Pos(linkCAS.Pos()), okNext,
 		"in the same iteration as cas32(headOff, head, start), next.Store(head) must run first with the same head value (hoisting it out of the retry loop links the record in front of a stale chain)")
 	// the head the FIRST link attempt expects is the one lookup() walked the chain from
@@ -173,7 +173,7 @@ func c04Publication(c *Ctx, m *Module, pfx string) {
 		okReload := false
 		for i, e := range phi.Edges {
 			if phi.Block().Dominates(phi.Block().Preds[i]) || blockReaches(phi.Block(), phi.Block().Preds[i]) {
-				if cl, ok := strip(e).(*ssa.Call); ok && calleeName(&cl.Call) == "(*internal/counter.mappedFile).load32" && describe(cl.Call.Args[1]) == describe(la[1]) {
+				if cl, ok := strip(e).(*ssa.Call); ok && calleeName(&cl.Call) == "(*internal/counter.mappedFile).load32" && describe(argsOf(cl)[1]) == describe(la[1]) {
 					okReload = true
 				}
 			}
@@ -219,8 +219,8 @@ func c04Publication(c *Ctx, m *Module, pfx string) {
 			dead := false
 			for _, in := range instrsOf(nc) {
 				if cl, ok := in.(*ssa.Call); ok && calleeName(&cl.Call) == "(*sync/atomic.Uint32).Store" {
-					if e, ok := cl.Call.Args[0].(*ssa.Extract); ok && e.Tuple == ssa.Value(wr) && e.Index == 0 {
-						if k, isC := intConst(cl.Call.Args[1]); isC && uint32(k) == ^uint32(0) && hasFact(factsAt(cl), isMatch) {
+					if e, ok := argsOf(cl)[0].(*ssa.Extract); ok && e.Tuple == ssa.Value(wr) && e.Index == 0 {
+						if k, isC := intConst(argsOf(cl)[1]); isC && uint32(k) == ^uint32(0) && hasFact(factsAt(cl), isMatch) {
 							dead = true
 						}
 					}
@@ -259,7 +259,7 @@ func c04Publication(c *Ctx, m *Module, pfx string) {
 	r.Check(pfx+".value-add", "Counter.add/load-CAS loop", m.Pos(add.Pos()), okCAS, "the mapped value changes only by CompareAndSwap of a freshly loaded value")
 	for _, fn := range m.PkgFuncs("internal/counter") {
 		for _, cs := range callsIn(fn, "(*sync/atomic.Uint64).Store", "(*sync/atomic.Uint64).Add", "(*sync/atomic.Uint64).Swap", "sync/atomic.StoreUint64", "sync/atomic.AddUint64") {
-			d := describe(cs.Common().Args[0])
+			d := describe(argsOf(cs)[0])
 			mapped := strings.Contains(d, ".count") || strings.Contains(d, "entryAt") || strings.Contains(d, "mapping.Data")
 			r.Check(pfx+".value-add", "blind store/add to a 64-bit atomic in "+fname(fn), m.Pos(cs.Pos()), !mapped, "counter values must only be CASed (saturating add); got "+calleeName(cs.Common())+" on "+d)
 		}
@@ -374,9 +374,9 @@ func c04AtomicOnly(c *Ctx, m *Module) {
 					case ssa.CallInstruction:
 						cn := calleeName(y.Common())
 						switch {
-						case cn == "builtin:copy" && y.Common().Args[0] == ssa.Value(x) && fname(fn) == "(*internal/counter.mappedFile).writeEntryAt":
+						case cn == "builtin:copy" && argsOf(y)[0] == ssa.Value(x) && fname(fn) == "(*internal/counter.mappedFile).writeEntryAt":
 							kind = "atomic" // name copy into a reserved, not yet linked record
-						case cn == "builtin:copy" && y.Common().Args[1] == ssa.Value(x):
+						case cn == "builtin:copy" && argsOf(y)[1] == ssa.Value(x):
 							kind = "atomic" // read
 						}
 					case *ssa.Return, *ssa.Store, *ssa.Convert, *ssa.DebugRef:
@@ -493,7 +493,7 @@ func limitWordLoad(v ssa.Value) *ssa.Call {
 		return nil
 	}
 	p := newProver()
-	off := p.norm(cl.Call.Args[1])
+	off := p.norm(argsOf(cl)[1])
 	if len(off.coef) != 1 || off.k != 0 {
 		return nil
 	}
